@@ -16,6 +16,11 @@ import (
 // which for several windows only happens when another goroutine gets in between.
 func init() {
 	leader.VerifYield = func(site string) {
+		// tell the notification dispatchers which window the library is in right now
+		select {
+		case siteSignal <- site:
+		default:
+		}
 		switch rand.IntN(4) {
 		case 0:
 			time.Sleep(time.Duration(rand.IntN(400)) * time.Microsecond)
